@@ -132,7 +132,10 @@ def make_shadow(dest, variant, harness_files, harness_index):
     open(lib, "w").write(s + LIB_INJECT)
     gen = ["// generated by /verif/lib/bcv/shadow.py -- do not edit\n",
            "#[macro_use]\n#[path = \"%s/harness/common/prelude.rs\"]\npub mod prelude;\n" % VERIF]
-    for extra in variant.get("common_mods", []):
+    cm = list(variant.get("common_mods", []))
+    if "uf" in cm and "cuf" not in cm:
+        cm.insert(cm.index("uf") + 1, "cuf")
+    for extra in cm:
         gen.append("#[macro_use]\n#[path = \"%s/harness/common/%s.rs\"]\npub mod %s;\n" % (VERIF, extra, extra))
     if variant.get("layouts"):
         gen.append(layout_module(dest, variant["layouts"]))
@@ -160,7 +163,56 @@ def make_shadow(dest, variant, harness_files, harness_index):
         gen.append("        \"%s::%s\" => {\n            if inp.len() < %s::%s::N { return Some(None); }\n            let a: &[u8; %s::%s::N] = inp[..%s::%s::N].try_into().ok()?;\n            Some(%s::%s::prop(a))\n        }\n" % (mod, h, q, h, q, h, q, h, q, h))
     gen.append("        _ => None,\n    }\n}\n")
     open(os.path.join(dest, "src", "verif_kani.rs"), "w").write("".join(gen))
+    # -- back-end uninterpreted functions (harness/common/cuf.rs): one C wrapper per cuf1!/cuf2!/cuf_bij! invocation found
+    #    in the harness sources of this shadow (followed through #[path] includes)
+    csrc = cuf_c_source(list(harness_files) + [os.path.join(VERIF, "harness", hrel) for _, _, hrel in variant.get("inner", [])])
+    if csrc:
+        open(os.path.join(dest, "verif_uf.c"), "w").write(csrc)
+        log.append({"file": "verif_uf.c", "why": "C wrappers of back-end uninterpreted functions (cuf macros)", "matches": csrc.count("__CPROVER_uninterpreted_") // 2})
     return dest, log
+
+
+CTYPES = {"u8": "uint8_t", "u16": "uint16_t", "u32": "uint32_t", "u64": "uint64_t", "u128": "unsigned __int128", "usize": "uint64_t"}
+
+
+def cuf_c_source(files):
+    """Scan harness sources (recursively through #[path = "..."]) for cuf macro invocations with literal arguments and
+    return the C translation unit declaring one wrapper per uninterpreted function ('' if there is none)."""
+    seen, todo, decls = set(), list(files), {}
+    while todo:
+        f = os.path.abspath(todo.pop())
+        if f in seen or not os.path.exists(f):
+            continue
+        seen.add(f)
+        src = re.sub(r"(?m)^\s*//.*$", "", open(f).read())
+        for m in re.finditer(r'#\[path\s*=\s*"([^"]+)"\]', src):
+            q = m.group(1)
+            todo.append(q if os.path.isabs(q) else os.path.join(os.path.dirname(f), q))
+        for m in re.finditer(r"\bcuf1!\(\s*(\w+)\s*,\s*(\w+)\s*,\s*(\w+)\s*,\s*(\w+)\s*,", src):
+            decls.setdefault(m.group(2), []).append(((m.group(3),), m.group(4), f))
+        for m in re.finditer(r"\bcuf2!\(\s*(\w+)\s*,\s*(\w+)\s*,\s*(\w+)\s*,\s*(\w+)\s*,\s*(\w+)\s*,", src):
+            decls.setdefault(m.group(2), []).append(((m.group(3), m.group(4)), m.group(5), f))
+        for m in re.finditer(r"\bcuf_bij!\(\s*(\w+)\s*,\s*(\w+)\s*,\s*(\w+)\s*,\s*(\w+)\s*,", src):
+            decls.setdefault(m.group(2), []).append(((m.group(4),), m.group(4), f))
+            decls.setdefault(m.group(3), []).append(((m.group(4),), m.group(4), f))
+    if not decls:
+        return ""
+    out = ["// generated by /verif/lib/bcv/shadow.py from the cuf macro invocations of the harness sources -- do not edit\n#include <stdint.h>\n"]
+    for name in sorted(decls):
+        sigs = {(a, r) for a, r, _ in decls[name]}
+        if len(sigs) != 1:
+            raise ShadowError(f"uninterpreted function symbol {name} declared with different signatures in {[f for _, _, f in decls[name]]}")
+        if name.startswith("$") or not re.match(r"^[A-Za-z_]\w*$", name):
+            raise ShadowError(f"cuf symbol {name!r} is not a literal identifier")
+        (args, ret), = sigs
+        for t in args + (ret,):
+            if t not in CTYPES:
+                raise ShadowError(f"cuf symbol {name}: unsupported type {t}")
+        params = ", ".join("%s a%d" % (CTYPES[t], i) for i, t in enumerate(args))
+        call = ", ".join("a%d" % i for i in range(len(args)))
+        out.append("%s __CPROVER_uninterpreted_%s(%s);\n%s %s(%s) { return __CPROVER_uninterpreted_%s(%s); }\n"
+                   % (CTYPES[ret], name, ", ".join(CTYPES[t] for t in args), CTYPES[ret], name, params, name, call))
+    return "".join(out)
 
 
 def inner_mod_path(modpath, hrel):
